@@ -126,8 +126,10 @@ class World:
 
     def _container(self, xs):
         """the same sequence as a list, a tuple, a one-shot iterator or a generator (any iterable is accepted by the
-        constructors; the choice depends on the allocation count only, so runs are reproducible)"""
-        m = max(0, len(self.objs) % 6 - 2)          # list (half of the calls), tuple, one-shot iterator, generator
+        constructors)"""
+        # the kind depends on the CONTENTS only (so runs are reproducible, and equal contents meet again as the same list
+        # object): list (2 in 5), tuple, one-shot iterator, generator
+        m = max(0, (sum((self.id_of(x) or 0) + 1 for x in xs) * 3 + len(xs)) % 5 - 1)
         if m == 0:
             # a caller may pass the SAME list object to several constructors: reuse the list handed in earlier for the
             # same contents (a library that keeps or edits its argument then corrupts the later object or this one)
@@ -423,6 +425,7 @@ def gen_history(rng, weights, nops, seed_ops=None):
         tags = list(weights)
         wts = [weights[t] for t in tags]
         tries = 0
+        share = {}
         while len(ops) < nops and tries < nops * 20:
             tries += 1
             t = rng.choices(tags, wts)[0]
@@ -435,6 +438,12 @@ def gen_history(rng, weights, nops, seed_ops=None):
 
             def ov():
                 return pick(vs) if vs and rng.random() < 0.8 else None
+            # vertices built from the same universes= contents as another one: membership edits aim at them more often
+            sharers = [v for lst in share.values() if len(lst) >= 2 for v in lst]
+            if sharers and rng.random() < 0.3:
+                mem = [x for x in ("UAV", "URV", "VAU", "VRU") if weights.get(x)]
+                if mem:
+                    t = rng.choice(mem)
             op = None
             if t == "NV":
                 if len(vs) < 6:
@@ -479,10 +488,10 @@ def gen_history(rng, weights, nops, seed_ops=None):
                         op = ["UNL", a_, b_, rng.random() < 0.5] if rng.random() < 0.5 else ["UNL", b_, a_, rng.random() < 0.5]
             elif t in ("UAV", "URV"):
                 if us and vs:
-                    op = [t, pick(us), pick(vs)]
+                    op = [t, pick(us), pick(sharers) if sharers and rng.random() < 0.6 else pick(vs)]
             elif t in ("VAU", "VRU"):
                 if us and vs:
-                    op = [t, pick(vs), pick(us)]
+                    op = [t, pick(sharers) if sharers and rng.random() < 0.6 else pick(vs), pick(us)]
             elif t == "SL":
                 if us:
                     op = ["SL", pick(us), pick(Ls) if Ls and rng.random() < 0.8 else None]
@@ -493,7 +502,10 @@ def gen_history(rng, weights, nops, seed_ops=None):
                 op = ["CACHE", rng.random() < 0.5]
             if op is None:
                 continue
+            n0 = len(w.objs)
             w.do(op)
+            if op[0] == "NV" and op[2] and len(w.objs) == n0 + 1:
+                share.setdefault(tuple(op[2]), []).append(n0)
             ops.append(op)
     finally:
         w.close()
